@@ -114,7 +114,7 @@ func getRobustWorld(seed int64) *robustWorld {
 		}
 		w.batchIss = batched.NewBasicBatchedIssuer(batchIssuer1{type1.NewBasicPrivateIssuer(k1)}, batchIssuer2{type2.NewBasicPublicIssuer(rsaKey(0))})
 
-		sk, _ := ecdsa.CreateKey(elliptic.P384(), p384Scalar(seed, "ecdsa-robust"))
+		sk, _ := rawKey(elliptic.P384(), p384Scalar(seed, "ecdsa-robust"))
 		w.ecPub = &sk.PublicKey
 		d := sha512.Sum384([]byte("robust"))
 		w.ecDigest = d[:]
